@@ -241,6 +241,22 @@ struct JSONUtils {
                 }
 
                 default: {
+                    if ((ch >= Char_T{0}) && (ch < JSONotation::SpaceChar)) {
+                        // Every other control character must be escaped too: \u00XX
+                        const SizeT32 low = (SizeT32(ch) & 0x0FU);
+
+                        stream.Write((content + offset2), (offset - offset2));
+                        offset2 = offset;
+                        ++offset2;
+
+                        stream += JSONotation::BSlashChar;
+                        stream += JSONotation::U_Char;
+                        stream += DigitUtils::DigitChar::Zero;
+                        stream += DigitUtils::DigitChar::Zero;
+                        stream += Char_T(DigitUtils::DigitChar::Zero + (SizeT32(ch) >> 4U));
+                        stream += Char_T((low < 10U) ? (DigitUtils::DigitChar::Zero + low)
+                                                     : (DigitUtils::DigitChar::UA + (low - 10U)));
+                    }
                 }
             }
 
